@@ -143,10 +143,35 @@ pub fn trivia_mutation(text: &str, rng: &mut Rng) -> String {
         inserts.push((gap, text));
     }
     let with_comments = mutate::with_gap_inserts(text, &tokens, &inserts);
-    match rng.below(4) {
+    let spaced = match rng.below(4) {
         | 0 | 1 => mutate::respace_horizontal(&with_comments, rng),
         | 2 => e2::hostile::skip_character_spacing(&with_comments, rng),
         | _ => with_comments,
+    };
+    // vertical layout: lines broken and joined at random token gaps
+    let broken = if rng.chance(1, 2) {
+        let changes = 1 + rng.below(4);
+        mutate::rebreak(&spaced, rng, changes)
+    } else {
+        spaced
+    };
+    // a redundant pair of parentheses, also with a line break inside; kept only if the desugared term is unchanged
+    if rng.chance(1, 3) {
+        let single_line = rng.chance(1, 3);
+        if let Some(variant) = mutate::add_redundant_parens(&broken, rng, single_line) {
+            if same_desugared(&broken, &variant) {
+                return variant;
+            }
+        }
+    }
+    broken
+}
+
+/// Both texts parse and desugar to the same term.
+pub fn same_desugared(a: &str, b: &str) -> bool {
+    match (e2::desugared(a), e2::desugared(b)) {
+        | (Ok(Ok(x)), Ok(Ok(y))) => x == y,
+        | _ => false,
     }
 }
 
